@@ -18,7 +18,7 @@ HARNESS = {
 }
 
 
-def _c17_jobs(tier):
+def _c17_jobs(tier, acct="notes", modes=None):
     q = tier == "quick"
     # per-job deadlines: quick = one wave of 16 jobs (<= 60 s); thorough = 4 jobs per worker, 300+300+120+120 s = 14 min worst case
     # (measured on idle cores: t2 120 s, t3 115 s, t1 43 s, t4 45 s per job); a job that runs out of time prints INCOMPLETE
@@ -27,10 +27,19 @@ def _c17_jobs(tier):
     plan = [("t4", 8), ("t2", 3), ("t3", 4), ("t1", 1)] if q else [("t2", 16), ("t3", 16), ("t4", 16), ("t1", 16)]
     jobs = []
     for mode, n in plan:
+        if modes is not None and mode not in modes:
+            continue
         for i in range(n):
-            jobs.append(("c17_h26x", ["--mode", mode, "--tier", tier, "--shard", "%d/%d" % (i, n), "--deadline", 50 if q else dls[mode]]))
+            jobs.append(("c17_h26x", ["--mode", mode, "--tier", tier, "--shard", "%d/%d" % (i, n),
+                                      "--deadline", 50 if q else dls[mode], "--acct", acct]))
     return jobs
 
+
+# Accounting findings (signatures containing "end:": leaks, references, over-releases seen by px_fix_fini or by the
+# harness' own sink / buffer accounting) are outside the C17 statement: the C17 jobs run with --acct notes (NOTE lines +
+# STAT accounting_findings, no VIOL); the same t3/t4 enumerations with --acct only (ONLY accounting findings produce
+# VIOL lines) are meant to be run under property C01.
+C01_EXTRA_JOBS = {"quick": _c17_jobs("quick", "only", ("t3", "t4")), "thorough": _c17_jobs("thorough", "only", ("t3", "t4"))}
 
 CHECK = {
     "engine": "seqx",
@@ -58,7 +67,9 @@ CHECK = {
                   "a NAL start), uniform chunks below 16 octets on the recorded stream (256-object cap of the counting managers), "
                   "corruptions of more than one octet, LENGTH_UNKNOWN encapsulation, global headers (avcC/hvcC) paths. "
                   "b.header (header size) after convert_frame is compared but only counted (STAT info_header_size_mismatch, "
-                  "--strict-header turns it into violations): it is not part of the C17 statement.",
+                  "--strict-header turns it into violations): it is not part of the C17 statement. "
+                  "Accounting findings (leaks / references at teardown, signatures with 'end:') are only counted here "
+                  "(--acct notes, STAT accounting_findings); C01_EXTRA_JOBS runs the same t3/t4 enumerations with --acct only.",
     "jobs": {"quick": _c17_jobs("quick"), "thorough": _c17_jobs("thorough")},
     "rule": "state = one case (frame+encapsulations+segmentation / code+alignment+escape placement+segmentation / stream+cutting / "
             "stream+feed+corruption); transition = one call of the code under test (conversion, decode, buffer input); "
